@@ -10,6 +10,8 @@ import (
 	"fmt"
 	"go/token"
 	"go/types"
+	"sort"
+	"strings"
 
 	"golang.org/x/tools/go/ssa"
 )
@@ -20,8 +22,10 @@ func init() {
 
 func runC02(c *Ctx) {
 	P := c.P
-	c.Explanation = "Decides ONLY the wiring of the mechanism that enforces the bound, not the bound: (R-DEPTH-BUDGET) the recursive insertion passes a depth budget that decreases by a positive constant on every recursive descent (both sides), raises its 'too deep' flag when a node is created with the budget exhausted, and Add/Replace start it from the tree's limit function applied to the (prospective) size; (R-GOAT-REBUILD) on the way back up, under a raised flag, a subtree whose height exceeds its own limit is rebuilt from (that subtree, its size — sibling size + 1 + flagged size), the rebuilt subtree is what is returned, and the flag is cleared. Each is a necessary condition: without it some insertion history (e.g. ascending keys) grows a path of unbounded depth with no rebuild. Does NOT decide the numeric bound log_{2000/(1000+β)} P + 1 (limitFunc's floating-point formula, the choice of scapegoat, the DSW rebuild producing a balanced tree, the delete-side threshold), nor the minimum-height claim for New."
+	c.Explanation = "Decides ONLY the wiring of the mechanism that enforces the bound, not the bound: (R-DEPTH-BUDGET) the recursive insertion passes a depth budget that decreases by a positive constant on every recursive descent (both sides), raises its 'too deep' flag when a node is created with the budget exhausted, and Add/Replace start it from the tree's limit function applied to the (prospective) size; (R-GOAT-REBUILD) on the way back up, under a raised flag, a subtree whose height exceeds its own limit is rebuilt from (that subtree, its size — sibling size + 1 + flagged size), the rebuilt subtree is what is returned, and the flag is cleared. Each is a necessary condition: without it some insertion history (e.g. ascending keys) grows a path of unbounded depth with no rebuild. The goat criterion's limit is taken for the very size the subtree is rebuilt with. (R-LOOKUP-COST) everything Tree.Get reaches compares keys at exactly one site, inside the descent: one comparison per level. Does NOT decide the numeric bound log_{2000/(1000+β)} P + 1 (limitFunc's floating-point formula, the choice of scapegoat, the DSW rebuild producing a balanced tree, the delete-side threshold), nor the minimum-height claim for New."
 	c.rule("R-DEPTH-BUDGET", 4, "budget decreases by a positive constant on each recursive descent; exhaustion raises the flag at the new leaf; Add/Replace start from limit(size[+1])")
+	c.rule("R-LOOKUP-COST", 1, "everything Tree.Get reaches compares keys at exactly one site, which lies in a descent loop (or a self-recursive descent): one comparison per level")
+	ruleLookupCost(c)
 	c.rule("R-GOAT-REBUILD", 1, "under a raised flag and height > limit(subtree size) the subtree is rebuilt with its size, returned, and the flag cleared")
 	ins := P.Func("stree", "Tree", "insert")
 	rewrite := P.Func("stree", "", "rewrite")
@@ -270,6 +274,15 @@ func runC02(c *Ctx) {
 				// height > limit(size)  ⇔  not (height <= limit)
 				if (cm.Y == v && (cm.Op == token.GTR || cm.Op == token.GEQ)) || (cm.X == v && (cm.Op == token.LSS || cm.Op == token.LEQ)) {
 					limTest = true
+					// the limit is taken for the size the subtree is rebuilt with: when both are
+					// sums over the same terms, their constant parts must agree
+					if len(call.Call.Args) == 1 && len(rw.Call.Args) > 1 {
+						la, lk := sumTerms(call.Call.Args[0])
+						ra, rk := sumTerms(rw.Call.Args[1])
+						if la == ra && lk != rk {
+							probs = append(probs, fmt.Sprintf("the height limit is computed for a size that differs by %+d from the size of the subtree being judged and rebuilt (line %d)", lk-rk, c.P.Fset.Position(call.Pos()).Line))
+						}
+					}
 				}
 			}
 		}
@@ -377,4 +390,115 @@ func runC02(c *Ctx) {
 		probs = append(probs, "the rebuilt subtree is not returned with the flag cleared")
 	}
 	c.judge(len(probs) == 0, "R-GOAT-REBUILD", "stree.(*Tree).insert:rebuild", rw.Pos(), "rewrite(root, sib+1+size) under flag ∧ height > limit; returned; flag cleared", fmt.Sprint(probs))
+}
+
+// sumTerms flattens v over + and − into a canonical rendering of its
+// non-constant terms and the sum of its integer constants.
+func sumTerms(v ssa.Value) (string, int64) {
+	var terms []string
+	var k int64
+	var walk func(v ssa.Value, sign int64)
+	walk = func(v ssa.Value, sign int64) {
+		if n, ok := constInt(v); ok {
+			k += sign * n
+			return
+		}
+		if bo, ok := v.(*ssa.BinOp); ok {
+			switch bo.Op {
+			case token.ADD:
+				walk(bo.X, sign)
+				walk(bo.Y, sign)
+				return
+			case token.SUB:
+				walk(bo.X, sign)
+				walk(bo.Y, -sign)
+				return
+			}
+		}
+		t := fmt.Sprintf("%p", v)
+		if sign < 0 {
+			t = "-" + t
+		}
+		terms = append(terms, t)
+	}
+	walk(v, 1)
+	sort.Strings(terms)
+	return strings.Join(terms, "+"), k
+}
+
+// ruleLookupCost: the property's last clause bounds a lookup by depth+1
+// comparisons.  The structural part: in everything Tree.Get reaches inside the
+// package there is exactly one call of the comparison, and it sits in a loop
+// (or in a function that calls itself) — so a lookup compares once per level
+// and never again.  R-ORIENT (C01) decides that each iteration of that loop
+// goes one level down.
+func ruleLookupCost(c *Ctx) {
+	get := c.P.Func("stree", "Tree", "Get")
+	if get == nil {
+		c.undecided("ANCHOR", "stree.(*Tree).Get", 0, "not found")
+		return
+	}
+	sc := buildCallScope(get)
+	type site struct {
+		fn   *ssa.Function
+		call *ssa.Call
+	}
+	var sites []site
+	for _, fn := range sc.fns {
+		fn := fn
+		allInstrs(fn, func(in ssa.Instruction) {
+			if call, ok := in.(*ssa.Call); ok && isCmpCall(call) {
+				sites = append(sites, site{fn, call})
+			}
+		})
+	}
+	key := "stree.(*Tree).Get:comparison sites"
+	if len(sites) == 0 {
+		c.undecided("R-LOOKUP-COST", key, get.Pos(), "no call of the comparison is reachable from Get")
+		return
+	}
+	if len(sites) > 1 {
+		var where []string
+		for _, s := range sites {
+			where = append(where, fmt.Sprintf("%s (%s)", c.P.pos(s.call.Pos()), fnName(s.fn)))
+		}
+		c.bad("R-LOOKUP-COST", key, get.Pos(), fmt.Sprintf("a lookup reaches %d comparison sites: %s — a key at the permitted depth d then costs more than the d+1 comparisons the property allows", len(sites), strings.Join(where, ", ")))
+		return
+	}
+	s := sites[0]
+	inLoop := false
+	b := s.call.Block()
+	seen := map[*ssa.BasicBlock]bool{}
+	var dfs func(x *ssa.BasicBlock)
+	dfs = func(x *ssa.BasicBlock) {
+		for _, y := range x.Succs {
+			if y == b {
+				inLoop = true
+			}
+			if !seen[y] {
+				seen[y] = true
+				dfs(y)
+			}
+		}
+	}
+	dfs(b)
+	selfRec := false
+	allInstrs(s.fn, func(in ssa.Instruction) {
+		if call, ok := in.(*ssa.Call); ok {
+			if cal := staticCallee(&call.Call); cal != nil && origin(cal) == origin(s.fn) {
+				selfRec = true
+			}
+		}
+	})
+	// the function holding the comparison is entered once per lookup
+	entered := 0
+	for _, st := range sc.sitesOf(s.fn) {
+		_ = st
+		entered++
+	}
+	if s.fn != get && !selfRec && entered > 1 {
+		c.bad("R-LOOKUP-COST", key, s.call.Pos(), fmt.Sprintf("the descent %s is entered from %d call sites under Get: the path is searched more than once per lookup", fnName(s.fn), entered))
+		return
+	}
+	c.judge(inLoop || selfRec, "R-LOOKUP-COST", key, s.call.Pos(), "one comparison site, in the descent "+fnName(s.fn), "the only comparison under Get is not in a descent loop or recursive descent")
 }
